@@ -21,7 +21,7 @@ struct Prop {
 }
 
 fn table() -> Vec<Prop> {
-    vec![
+    let mut v = vec![
     Prop {
         id: "C01",
         run: props::c01::run,
@@ -106,8 +106,38 @@ fn table() -> Vec<Prop> {
         rule: props::c17::RULE,
         assumptions: &["the unsafe from_raw_unchecked calls are sound because every integer comes from a valid subtag of the same type"],
     },
-    ]
+    ];
+    extra_props(&mut v);
+    v.sort_by_key(|p| p.id);
+    v
 }
+
+#[cfg(feature = "likely")]
+fn extra_props(v: &mut Vec<Prop>) {
+    v.push(Prop {
+        id: "C06",
+        run: props::c06::run,
+        replay: props::c06::replay,
+        rule: props::c06::RULE,
+        assumptions: &["the reference cascade (harness/src/likely.rs) is built at run time from unic-langid-impl/data/likelySubtags.json, never from the compiled tables", "in the three fallback situations the property names, None or exactly the UTS #35 fallback is accepted"],
+    });
+    v.push(Prop {
+        id: "C07",
+        run: props::c07::run,
+        replay: props::c07::replay,
+        rule: props::c07::RULE,
+        assumptions: &["algebraic oracle on the library's own answers; no CLDR data involved"],
+    });
+    v.push(Prop {
+        id: "C08",
+        run: props::c08::run,
+        replay: props::c08::replay,
+        rule: props::c08::RULE,
+        assumptions: &["minimize(maximize(x)) == minimize(x) and 'twice equals once' are evaluated on the results of the query (DESIGN.md 5.4)", "the reference 'remove likely subtags' is built from the JSON; triples that touch a case where C06 allows two answers are compared by the algebraic clauses only"],
+    });
+}
+#[cfg(not(feature = "likely"))]
+fn extra_props(_v: &mut Vec<Prop>) {}
 
 fn main() {
     let args: Vec<String> = std::env::args().collect();
